@@ -87,5 +87,17 @@ PLANS['C12'] = Plan(
     assumptions=['AlignerEngine.align composition (unpaired complement, final sorted(chain(...)), order preservation): bounded only'],
 )
 
+PLANS['C14'] = Plan(
+    'C14', ['src/alignment/segment_chainer.py::SequentialityScorer.getScore'], 'other',
+    "Proved for all inputs (deductive, nonlinear real arithmetic): SequentialityScorer.getScore returns -inf exactly when the overlap on one map exceeds "
+    "half of the shorter segment (geometric overlap, both strands), is otherwise finite and <= 0 for a non-negative multiplier, and is 0 for a contiguous "
+    "join; no division by zero. BOUNDED, not proved: SegmentChainer.chain (dynamic programme) is compared on the real function with exhaustive "
+    "enumeration of all order-respecting subsets for sets of up to 6 segments, both strands, both variants, three multipliers (subset, order, optimal "
+    "total, never -inf, no over-half overlap between consecutive members, empty segments passed through).",
+    bounded=_lazy('bcheck.c14', 'bounded'), replay=_lazy('bcheck.c14', 'replay'),
+    technique='deductive (own VC generator + z3 nonlinear reals) for the join score; bounded comparison with exhaustive subset enumeration for the DP',
+    assumptions=['SegmentChainer.chain: bounded only (<= 6 segments)'],
+)
+
 NOT_APPLICABLE = {}
-FIX_COMMITS = ['a1f5353']
+FIX_COMMITS = ['a1f5353', '24a396c']
